@@ -1,6 +1,6 @@
 (* C08 -- lemmas and proofs about Model/StorageModel.v *)
 From Coq Require Import ZArith NArith List Bool Lia ZifyBool.
-From HV Require Import Base.Keccak Spec.StorageSpec Gen.GenStoreConsts Gen.GenHashes Model.StorageModel.
+From HV Require Import Base.Keccak Spec.StorageSpec Gen.GenStoreConsts Gen.GenHashes Gen.GenStoreAxioms Model.StorageModel.
 Import ListNotations.
 Open Scope Z_scope.
 Ltac Zify.zify_post_hook ::= Z.to_euclidean_division_equations.
@@ -346,6 +346,563 @@ Proof.
   intros. eapply seq_sim; eauto. apply sim_empty.
 Qed.
 
+(* ================================================================== the path side: axioms *)
+(* The terms load() returns mention array terms (initial arrays, numbered array variables)
+   that only ex.path gives a meaning to.  An interpretation I of the array terms is a MODEL
+   of the path when every storage axiom holds under it.  Soundness: under every model of the
+   path the returned term evaluates to what the chain-level model (Section Raw) computes --
+   in particular a never-written location of a non-symbolic account evaluates to 0 under
+   EVERY model, which needs the emptiness axiom of exactly that load. *)
+Section Path.
+  Variables key val : Type.
+  Variable kden : env -> key -> Z.
+  Variable evalv : env -> val -> Z.
+  Variable orc : key -> key -> tri.
+  Variable kval : key -> bool.
+  Variable emits : bool -> bool -> bool.
+  Variable I : aref -> Z -> Z.
+  Variable e : env.
+
+  Definition Iinit (c : chunkid) (i : Z) : Z := I (AEmpty c) i.
+
+  Definition holds (ax : axiom key val) : Prop :=
+    match ax with
+    | AxDef n base k v => forall i, I (AVar n) i = if i =? kden e k then evalv e v else I base i
+    | AxEmpty c k => I (AEmpty c) (kden e k) = 0
+    end.
+
+  Definition evalp (r : pres key val) : Z :=
+    match r with
+    | PVal v => evalv e v
+    | PZero => 0
+    | PInit c => I (AEmpty c) 0
+    | PSelect a k => I a (kden e k)
+    end.
+
+  (* ---- abstraction to the chain-level model *)
+  Fixpoint unroll (st : pdefs key val) (a : aref) {struct st} : chain key val :=
+    match st with
+    | [] => []
+    | (m, (base, k0, v0)) :: rest =>
+        match a with
+        | AEmpty _ => []
+        | AVar n => if (n =? m)%nat then (k0, v0) :: unroll rest base else unroll rest a
+        end
+    end.
+
+  (* the chain of definitions of `a` ends in the initial array of chunk c *)
+  Fixpoint rooted (st : pdefs key val) (a : aref) (c : chunkid) {struct st} : Prop :=
+    match st with
+    | [] => a = AEmpty c
+    | (m, (base, _, _)) :: rest =>
+        match a with
+        | AEmpty c' => c' = c
+        | AVar n => if (n =? m)%nat then rooted rest base c else rooted rest a c
+        end
+    end.
+
+  Definition abs_chunk (st : pdefs key val) (ch : pchunk val) : chunk key val :=
+    match ch with PScalar v => CScalar v | PArr a => CArr (unroll st a) end.
+  Definition abs (s : pstate key val) : storage key val :=
+    {| symbolic := p_symbolic key val s;
+       mapping := map (fun p => (fst p, abs_chunk (p_storages key val s) (snd p))) (p_mapping key val s) |}.
+
+  Definition aref_le (a : aref) (n : nat) : Prop :=
+    match a with AEmpty _ => True | AVar m => (m <= n)%nat end.
+  Fixpoint pwf_st (st : pdefs key val) : Prop :=
+    match st with
+    | [] => True
+    | (n, (base, _, _)) :: rest => n = S (length rest) /\ aref_le base (length rest) /\ pwf_st rest
+    end.
+  Record pwf (s : pstate key val) : Prop := {
+    wf_st : pwf_st (p_storages key val s);
+    wf_map : forall c a, In (c, PArr a) (p_mapping key val s) ->
+               aref_le a (length (p_storages key val s)) /\ rooted (p_storages key val s) a c;
+    wf_defs : forall n b k v, In (n, (b, k, v)) (p_storages key val s) -> In (AxDef n b k v) (p_path key val s)
+  }.
+
+  Lemma rooted_empty : forall st c, rooted st (AEmpty c) c.
+  Proof. intros [|[m [[b k0] v0]] rest] c; reflexivity. Qed.
+  Lemma unroll_empty : forall st c, unroll st (AEmpty c) = [].
+  Proof. intros [|[m [[b k0] v0]] rest] c; reflexivity. Qed.
+
+  (* a definition numbered above everything `a` mentions is invisible from `a` *)
+  Lemma unroll_weaken : forall st a n d, aref_le a (length st) -> n = S (length st) ->
+    unroll ((n, d) :: st) a = unroll st a.
+  Proof. clear kden evalv orc kval emits I e.
+    intros st a n [[b k0] v0] Hle Hn. destruct a as [c|m]; cbn [unroll].
+    - symmetry. apply unroll_empty.
+    - cbn [aref_le] in Hle. destruct (m =? n)%nat eqn:E; [apply Nat.eqb_eq in E; lia | reflexivity].
+  Qed.
+  Lemma rooted_weaken : forall st a n d c, aref_le a (length st) -> n = S (length st) ->
+    (rooted ((n, d) :: st) a c <-> rooted st a c).
+  Proof. clear kden evalv orc kval emits I e.
+    intros st a n [[b k0] v0] c Hle Hn. destruct a as [c'|m]; cbn [rooted].
+    - destruct st as [|[m' [[b' k'] v']] rest]; cbn [rooted]; split; intro Hx; congruence.
+    - cbn [aref_le] in Hle. destruct (m =? n)%nat eqn:E; [apply Nat.eqb_eq in E; lia | tauto].
+  Qed.
+
+  (* under a model of the definitions, an array term denotes its unrolled chain over the
+     interpretation of the initial array it is rooted in *)
+  Lemma I_unroll : forall st,
+    (forall n b k v, In (n, (b, k, v)) st -> holds (AxDef n b k v)) ->
+    forall a c, rooted st a c -> forall i,
+      I a i = denote key val kden evalv Iinit e true c (unroll st a) i.
+  Proof.
+    induction st as [|[m [[b k0] v0]] rest IH]; intros Hd a c Hr i.
+    - cbn [rooted] in Hr. subst a. reflexivity.
+    - destruct a as [c'|n]; cbn [rooted unroll] in *.
+      + subst c'. reflexivity.
+      + destruct (n =? m)%nat eqn:E.
+        * apply Nat.eqb_eq in E. subst n. cbn [denote].
+          pose proof (Hd m b k0 v0 (or_introl eq_refl)) as Hm. cbn [holds] in Hm. rewrite Hm.
+          destruct (i =? kden e k0); [reflexivity|].
+          apply IH; [intros; apply Hd; right; assumption | exact Hr].
+        * apply IH; [intros; apply Hd; right; assumption | exact Hr].
+  Qed.
+
+  (* Exec.select on the real data structure = select on the unrolled chain, the bottom being
+     read from I *)
+  Lemma pselect_sound : forall st,
+    (forall n b k v, In (n, (b, k, v)) st -> holds (AxDef n b k v)) ->
+    forall sym a c k, rooted st a c ->
+      evalp (pselect key val orc st sym a k) =
+      evalr key val kden evalv Iinit e true (select key val orc sym c (unroll st a) k).
+  Proof.
+    induction st as [|[m [[b k0] v0]] rest IH]; intros Hd sym a c k Hr.
+    - cbn [rooted] in Hr. subst a. cbn [pselect unroll select]. destruct sym; reflexivity.
+    - destruct a as [c'|n].
+      + cbn [rooted] in Hr. subst c'. cbn [pselect unroll select]. destruct sym; reflexivity.
+      + pose proof (I_unroll _ Hd _ _ Hr (kden e k)) as HI.
+        cbn [rooted unroll pselect] in *. destruct (n =? m)%nat eqn:E.
+        * cbn [select]. destruct (orc k k0).
+          -- reflexivity.
+          -- apply IH; [intros; apply Hd; right; assumption | exact Hr].
+          -- cbn [evalp evalr]. exact HI.
+        * apply IH; [intros; apply Hd; right; assumption | exact Hr].
+  Qed.
+
+  Lemma denote_bottom : forall c ch i, Iinit c i = 0 ->
+    denote key val kden evalv Iinit e true c ch i = denote key val kden evalv Iinit e false c ch i.
+  Proof.
+    intros c ch i H0. induction ch as [|[k0 v0] b IH]; cbn [denote]; [exact H0|].
+    destruct (i =? kden e k0); [reflexivity | exact IH].
+  Qed.
+
+  Lemma select_bottom : forall c ch k, Iinit c (kden e k) = 0 ->
+    evalr key val kden evalv Iinit e true (select key val orc false c ch k) =
+    evalr key val kden evalv Iinit e false (select key val orc false c ch k).
+  Proof.
+    intros c ch k H0. induction ch as [|[k0 v0] b IH]; cbn [select]; [reflexivity|].
+    destruct (orc k k0); [reflexivity | exact IH |].
+    cbn [evalr]. apply denote_bottom. exact H0.
+  Qed.
+
+  Lemma st_find_abs : forall s c,
+    st_find key val (abs s) c = option_map (abs_chunk (p_storages key val s)) (pfind key val s c).
+  Proof.
+    intros s c. unfold st_find, pfind, abs. cbn [mapping].
+    induction (p_mapping key val s) as [|[c0 ch0] m IH]; [reflexivity|].
+    cbn [map find fst snd]. destruct (cid_eqb c0 c); [reflexivity | exact IH].
+  Qed.
+
+  Lemma pfind_in : forall s c ch, pfind key val s c = Some ch -> In (c, ch) (p_mapping key val s).
+  Proof.
+    intros s c ch Hf. unfold pfind in Hf.
+    destruct (find (fun p => cid_eqb (fst p) c) (p_mapping key val s)) as [[c0 ch0]|] eqn:F; [|discriminate].
+    inversion Hf; subst. apply find_some in F. destruct F as [Hin Heq]. cbn [fst] in Heq.
+    apply cid_eqb_eq in Heq. subst. exact Hin.
+  Qed.
+
+  Lemma parr_wf : forall s c, pwf s ->
+    aref_le (parr key val s c) (length (p_storages key val s)) /\ rooted (p_storages key val s) (parr key val s c) c.
+  Proof.
+    intros s c W. unfold parr. destruct (pfind key val s c) as [[v|a]|] eqn:F.
+    - split; [exact Logic.I | apply rooted_empty].
+    - apply pfind_in in F. exact (wf_map s W c a F).
+    - split; [exact Logic.I | apply rooted_empty].
+  Qed.
+
+  (* the array branch of load on the abstraction *)
+  Lemma load_abs : forall s c k, cid_scalar c = false ->
+    load key val orc (abs s) c k =
+    select key val orc (p_symbolic key val s) c (unroll (p_storages key val s) (parr key val s c)) k.
+  Proof.
+    intros s c k Hs. unfold load. rewrite Hs, st_find_abs. unfold parr.
+    destruct (pfind key val s c) as [[v|a]|]; cbn [option_map abs_chunk abs symbolic];
+      rewrite ?unroll_empty; reflexivity.
+  Qed.
+
+  (* ---- soundness of one load under every model of the path AFTER the load *)
+  Hypothesis emits_complete : forall kv, emits false kv = true.
+
+  Lemma path_load_sound : forall s c k, pwf s ->
+    (forall ax, In ax (p_path key val (snd (pload key val orc kval emits s c k))) -> holds ax) ->
+    evalp (fst (pload key val orc kval emits s c k)) =
+    evalr key val kden evalv Iinit e (p_symbolic key val s) (load key val orc (abs s) c k).
+  Proof.
+    intros s c k W Hp. unfold pload in *. destruct (cid_scalar c) eqn:Sc; cbn [fst snd] in *.
+    - unfold load. rewrite Sc, st_find_abs.
+      destruct (pfind key val s c) as [[v|a]|]; cbn [option_map abs_chunk abs symbolic evalp evalr]; try reflexivity.
+      destruct (p_symbolic key val s); reflexivity.
+    - cbn [p_path] in Hp. rewrite load_abs by exact Sc.
+      destruct (parr_wf s c W) as [_ Hr].
+      assert (Hd : forall n b k0 v, In (n, (b, k0, v)) (p_storages key val s) -> holds (AxDef n b k0 v)).
+      { intros n b k0 v Hin. apply Hp. pose proof (wf_defs s W n b k0 v Hin) as Hi.
+        destruct (emits (p_symbolic key val s) (kval k)); [right|]; exact Hi. }
+      rewrite (pselect_sound _ Hd _ _ _ k Hr).
+      destruct (p_symbolic key val s) eqn:Sy; [reflexivity|].
+      apply select_bottom. unfold Iinit.
+      assert (Hax : holds (AxEmpty c k)).
+      { apply Hp. rewrite emits_complete. left. reflexivity. }
+      exact Hax.
+  Qed.
+
+  (* ---- store and load preserve the invariant; the abstraction commutes *)
+  Lemma pload_abs : forall s c k, abs (snd (pload key val orc kval emits s c k)) = abs s.
+  Proof. intros s c k. unfold pload. destruct (cid_scalar c); reflexivity. Qed.
+  Lemma pload_symbolic : forall s c k,
+    p_symbolic key val (snd (pload key val orc kval emits s c k)) = p_symbolic key val s.
+  Proof. intros s c k. unfold pload. destruct (cid_scalar c); reflexivity. Qed.
+  Lemma pload_path_incl : forall s c k,
+    incl (p_path key val s) (p_path key val (snd (pload key val orc kval emits s c k))).
+  Proof.
+    intros s c k ax Hin. unfold pload. destruct (cid_scalar c); cbn [snd p_path]; [exact Hin|].
+    destruct (emits (p_symbolic key val s) (kval k)); [right|]; exact Hin.
+  Qed.
+  Lemma pload_wf : forall s c k, pwf s -> pwf (snd (pload key val orc kval emits s c k)).
+  Proof.
+    intros s c k W. pose proof (pload_path_incl s c k) as Hi. unfold pload in *.
+    destruct (cid_scalar c); cbn [snd] in *; [exact W|].
+    constructor; cbn [p_storages p_mapping p_path].
+    - exact (wf_st s W).
+    - exact (wf_map s W).
+    - intros n b k0 v Hin. apply Hi. exact (wf_defs s W n b k0 v Hin).
+  Qed.
+
+  Lemma pstore_symbolic : forall s c k v, p_symbolic key val (pstore key val s c k v) = p_symbolic key val s.
+  Proof. intros s c k v. unfold pstore. destruct (cid_scalar c); reflexivity. Qed.
+  Lemma pstore_path_incl : forall s c k v, incl (p_path key val s) (p_path key val (pstore key val s c k v)).
+  Proof. intros s c k v ax Hin. unfold pstore. destruct (cid_scalar c); cbn [p_path]; [|right]; exact Hin. Qed.
+
+  Lemma pstore_wf : forall s c k v, pwf s -> pwf (pstore key val s c k v).
+  Proof. clear emits_complete. clear kden evalv orc kval emits I e.
+    intros s c k v W. unfold pstore. destruct (cid_scalar c) eqn:Sc.
+    - constructor; cbn [p_storages p_mapping p_path].
+      + exact (wf_st s W).
+      + intros c' a [Heq|Hin]; [inversion Heq | exact (wf_map s W c' a Hin)].
+      + exact (wf_defs s W).
+    - destruct (parr_wf s c W) as [Hle Hr].
+      constructor; cbn [p_storages p_mapping p_path].
+      + cbn [pwf_st]. split; [reflexivity|]. split; [exact Hle | exact (wf_st s W)].
+      + intros c' a [Heq|Hin].
+        * inversion Heq; subst c' a. cbn [aref_le length rooted]. split; [lia|].
+          rewrite Nat.eqb_refl. exact Hr.
+        * destruct (wf_map s W c' a Hin) as [Hle' Hr']. split.
+          -- destruct a as [c0|m]; cbn [aref_le length] in *; [exact Logic.I | lia].
+          -- apply rooted_weaken; [exact Hle' | reflexivity | exact Hr'].
+      + intros n b k0 v0 [Heq|Hin]; [inversion Heq; subst; left; reflexivity | right; exact (wf_defs s W n b k0 v0 Hin)].
+  Qed.
+
+  Lemma pstore_abs : forall s c k v, pwf s ->
+    abs (pstore key val s c k v) = store key val (abs s) c k v.
+  Proof.
+    intros s c k v W. unfold pstore, store. destruct (cid_scalar c) eqn:Sc.
+    - reflexivity.
+    - destruct (parr_wf s c W) as [Hle _].
+      unfold abs at 1. cbn [p_symbolic p_mapping p_storages map fst snd abs_chunk unroll].
+      rewrite Nat.eqb_refl.
+      assert (Hch : match st_find key val (abs s) c with Some (CArr ch) => ch | _ => [] end =
+                    unroll (p_storages key val s) (parr key val s c)).
+      { rewrite st_find_abs. unfold parr. destruct (pfind key val s c) as [[v0|a]|]; cbn [option_map abs_chunk];
+          rewrite ?unroll_empty; reflexivity. }
+      rewrite Hch. unfold abs. cbn [symbolic mapping]. f_equal. f_equal.
+      apply map_ext_in. intros [c' ch'] Hin. cbn [fst snd]. f_equal.
+      destruct ch' as [v0|a]; cbn [abs_chunk]; [reflexivity|]. f_equal.
+      apply unroll_weaken; [exact (proj1 (wf_map s W c' a Hin)) | reflexivity].
+  Qed.
+
+  (* ---- whole sequences: under every model of the FINAL path, the terms returned by the
+     loads evaluate to what the chain-level model computes *)
+  Variable decode : loc -> res (chunkid * key).
+
+  Lemma prun_path_incl : forall ops s,
+    incl (p_path key val s) (p_path key val (snd (prun key val orc kval emits decode s ops))).
+  Proof.
+    induction ops as [|o ops IH]; intros s; [apply incl_refl|].
+    destruct o as [l v|l]; cbn [prun]; destruct (decode l) as [d|c]; cbn [snd]; try apply incl_refl.
+    - eapply incl_tran; [apply pstore_path_incl | apply IH].
+    - eapply incl_tran; [apply pload_path_incl | apply IH].
+  Qed.
+
+  Lemma path_seq : forall ops s, pwf s ->
+    (forall ax, In ax (p_path key val (snd (prun key val orc kval emits decode s ops))) -> holds ax) ->
+    map evalp (fst (prun key val orc kval emits decode s ops)) =
+    model_run key val kden evalv orc Iinit decode e (abs s) ops.
+  Proof.
+    induction ops as [|o ops IH]; intros s W Hp; [reflexivity|].
+    destruct o as [l v|l]; cbn [prun model_run] in *; destruct (decode l) as [d|c]; try reflexivity.
+    - rewrite <- pstore_abs by exact W. apply IH; [apply pstore_wf; exact W | exact Hp].
+    - cbn [fst snd map] in *. f_equal.
+      + cbn [abs symbolic]. apply path_load_sound; [exact W|].
+        intros ax Hin. apply Hp. eapply prun_path_incl. exact Hin.
+      + rewrite <- (pload_abs s (fst d) (snd d)). apply IH; [apply pload_wf; exact W | exact Hp].
+  Qed.
+End Path.
+
+Lemma p_empty_wf : forall key val, pwf key val (p_empty key val).
+Proof. intros. constructor; cbn; [exact Logic.I | intros c a [] | intros n b k v []]. Qed.
+
+(* sequences from the empty, non-symbolic storage: under EVERY interpretation of the array
+   terms that satisfies the axioms the run left in the path, the returned terms evaluate to
+   what the EVM's flat array returns *)
+Lemma path_seq_from_empty :
+  forall (key val : Type) (kden : env -> key -> Z) (evalv : env -> val -> Z) (orc : key -> key -> tri)
+         (kval : key -> bool) (emits : bool -> bool -> bool) (adm : env -> Prop),
+    (forall a b, orc a b = MustEq -> forall e, adm e -> kden e a = kden e b) ->
+    (forall a b, orc a b = MustNeq -> forall e, adm e -> kden e a <> kden e b) ->
+    (forall kv, emits false kv = true) ->
+    forall (H : Z -> Z -> Z) (decode : loc -> res (chunkid * key)) (e : env) (fam : list loc) (ops : list (op val)),
+      adm e -> faithful_on key kden H decode e fam ->
+      (forall o, In o ops -> In (op_loc val o) fam) ->
+      forall I : aref -> Z -> Z,
+        (forall ax, In ax (p_path key val (snd (prun key val orc kval emits decode (p_empty key val) ops))) ->
+           holds key val kden evalv I e ax) ->
+        map (evalp key val kden evalv I e) (fst (prun key val orc kval emits decode (p_empty key val) ops)) =
+        ref_run H e val evalv fempty ops.
+Proof.
+  intros key val kden evalv orc kval emits adm Oe On Hem H decode e fam ops He Hf Hin I Hp.
+  rewrite (path_seq key val kden evalv orc kval emits I e Hem decode ops (p_empty key val) (p_empty_wf key val) Hp).
+  change (abs key val (p_empty key val)) with (st_empty key val).
+  eapply seq_from_empty; eauto.
+Qed.
+
+(* the guards of the code, as regenerated *)
+Lemma sol_emits_complete : forall kv, sol_load_emits_empty false kv = true.
+Proof. intros [|]; reflexivity. Qed.
+Lemma gen_emits_complete : forall kv, gen_load_emits_empty false kv = true.
+Proof. intros [|]; reflexivity. Qed.
+Lemma sol_emits_only_nonsymbolic : forall kv, sol_load_emits_empty true kv = false.
+Proof. intros [|]; reflexivity. Qed.
+Lemma gen_emits_only_nonsymbolic : forall kv, gen_load_emits_empty true kv = false.
+Proof. intros [|]; reflexivity. Qed.
+
+(* ---- the axioms never over-constrain: whatever the initial arrays are (symbolic storage),
+   or with all-zero initial arrays (non-symbolic storage), the path a run leaves has a model
+   that extends them.  So the soundness theorem is not vacuous, a non-symbolic run does not
+   make the path unsatisfiable, and symbolic initial storage stays unconstrained. *)
+Section PathSat.
+  Variables key val : Type.
+  Variable kden : env -> key -> Z.
+  Variable evalv : env -> val -> Z.
+  Variable orc : key -> key -> tri.
+  Variable kval : key -> bool.
+  Variable emits : bool -> bool -> bool.
+  Variable e : env.
+  Variable init : chunkid -> Z -> Z.
+
+  (* the interpretation the definitions force on top of `init` *)
+  Fixpoint Ival (st : pdefs key val) (a : aref) (i : Z) {struct st} : Z :=
+    match st with
+    | [] => match a with AEmpty c => init c i | AVar _ => 0 end
+    | (m, (base, k0, v0)) :: rest =>
+        match a with
+        | AEmpty c => init c i
+        | AVar n => if (n =? m)%nat then (if i =? kden e k0 then evalv e v0 else Ival rest base i)
+                    else Ival rest a i
+        end
+    end.
+
+  Lemma Ival_empty : forall st c i, Ival st (AEmpty c) i = init c i.
+  Proof. intros [|[m [[b k0] v0]] rest] c i; reflexivity. Qed.
+
+  Lemma Ival_weaken : forall st a n d i, aref_le a (length st) -> n = S (length st) ->
+    Ival ((n, d) :: st) a i = Ival st a i.
+  Proof.
+    clear orc kval emits.
+    intros st a n [[b k0] v0] i Hle Hn. destruct a as [c|m]; cbn [Ival].
+    - symmetry. apply Ival_empty.
+    - cbn [aref_le] in Hle. destruct (m =? n)%nat eqn:E; [apply Nat.eqb_eq in E; lia | reflexivity].
+  Qed.
+
+  Lemma pwf_st_in : forall st n b k v, pwf_st key val st -> In (n, (b, k, v)) st ->
+    (n <= length st)%nat /\ aref_le b (length st).
+  Proof.
+    clear orc kval emits.
+    induction st as [|[m [[b0 k0] v0]] rest IH]; intros n b k v W Hin; [destruct Hin|].
+    cbn [pwf_st] in W. destruct W as [Hm [Hb W]]. cbn [length]. destruct Hin as [Heq|Hin].
+    - inversion Heq; subst. split; [lia|]. destruct b as [c|x]; cbn [aref_le] in *; [exact Logic.I | lia].
+    - destruct (IH n b k v W Hin) as [H1 H2]. split; [lia|].
+      destruct b as [c|x]; cbn [aref_le] in *; [exact Logic.I | lia].
+  Qed.
+
+  Lemma Ival_defs : forall st, pwf_st key val st -> forall n b k v, In (n, (b, k, v)) st ->
+    forall i, Ival st (AVar n) i = if i =? kden e k then evalv e v else Ival st b i.
+  Proof.
+    clear orc kval emits.
+    induction st as [|[m [[b0 k0] v0]] rest IH]; intros W n b k v Hin i; [destruct Hin|].
+    pose proof W as W0. cbn [pwf_st] in W. destruct W as [Hm [Hb W]]. destruct Hin as [Heq|Hin].
+    - inversion Heq; subst n b0 k0 v0.
+      rewrite (Ival_weaken rest b m (b, k, v) i) by auto.
+      cbn [Ival]. rewrite Nat.eqb_refl. reflexivity.
+    - destruct (pwf_st_in rest n b k v W Hin) as [Hn Hb'].
+      rewrite (Ival_weaken rest (AVar n) m (b0, k0, v0) i) by (cbn [aref_le]; auto).
+      rewrite (Ival_weaken rest b m (b0, k0, v0) i) by auto.
+      apply IH; auto.
+  Qed.
+
+  (* the invariant of runs: additionally, every definition in the path is recorded in
+     ex.storages, and a symbolic account never gets an emptiness axiom *)
+  Record pinv (s : pstate key val) : Prop := {
+    inv_wf : pwf key val s;
+    inv_defs : forall n b k v, In (AxDef n b k v) (p_path key val s) -> In (n, (b, k, v)) (p_storages key val s);
+    inv_sym : p_symbolic key val s = true -> forall c k, ~ In (AxEmpty c k) (p_path key val s)
+  }.
+
+  Hypothesis emits_only_nonsymbolic : forall kv, emits true kv = false.
+
+  Lemma pload_inv : forall s c k, pinv s -> pinv (snd (pload key val orc kval emits s c k)).
+  Proof.
+    intros s c k [W D S]. constructor; [apply pload_wf; exact W | |]; unfold pload in *;
+      destruct (cid_scalar c); cbn [snd p_path p_storages p_symbolic]; auto.
+    - intros n b k0 v Hin. apply D. destruct (emits (p_symbolic key val s) (kval k)); [|exact Hin].
+      destruct Hin as [Heq|Hin]; [discriminate | exact Hin].
+    - intros Sy c' k'. rewrite Sy, emits_only_nonsymbolic. apply S. exact Sy.
+  Qed.
+
+  Lemma pstore_inv : forall s c k v, pinv s -> pinv (pstore key val s c k v).
+  Proof.
+    intros s c k v [W D S]. constructor; [apply pstore_wf; exact W | |]; unfold pstore in *;
+      destruct (cid_scalar c); cbn [p_path p_storages p_symbolic]; auto.
+    - intros n b k0 v0 [Heq|Hin]; [inversion Heq; subst; left; reflexivity | right; apply D; exact Hin].
+    - intros Sy c' k' [Heq|Hin]; [discriminate | exact (S Sy c' k' Hin)].
+  Qed.
+
+  Variable decode : loc -> res (chunkid * key).
+  Lemma prun_inv : forall ops s, pinv s -> pinv (snd (prun key val orc kval emits decode s ops)).
+  Proof.
+    induction ops as [|o ops IH]; intros s Hi; [exact Hi|].
+    destruct o as [l v|l]; cbn [prun]; destruct (decode l) as [d|c]; cbn [snd]; try exact Hi.
+    - apply IH. apply pstore_inv. exact Hi.
+    - apply IH. apply pload_inv. exact Hi.
+  Qed.
+
+  Lemma prun_symbolic : forall ops s,
+    p_symbolic key val (snd (prun key val orc kval emits decode s ops)) = p_symbolic key val s.
+  Proof.
+    induction ops as [|o ops IH]; intros s; [reflexivity|].
+    destruct o as [l v|l]; cbn [prun]; destruct (decode l) as [d|c]; cbn [snd]; try reflexivity.
+    - rewrite IH. apply pstore_symbolic.
+    - rewrite IH. apply pload_symbolic.
+  Qed.
+
+  Lemma path_model : forall s, pinv s ->
+    (forall c k, In (AxEmpty c k) (p_path key val s) -> init c (kden e k) = 0) ->
+    (forall c i, Ival (p_storages key val s) (AEmpty c) i = init c i) /\
+    (forall ax, In ax (p_path key val s) -> holds key val kden evalv (Ival (p_storages key val s)) e ax).
+  Proof.
+    intros s [W D S] H0. split; [intros; apply Ival_empty|].
+    intros [n b k v|c k] Hin; cbn [holds].
+    - intros i. apply Ival_defs; [exact (wf_st key val s W) | apply D; exact Hin].
+    - rewrite Ival_empty. apply H0. exact Hin.
+  Qed.
+End PathSat.
+
+Definition p_start (key val : Type) (sym : bool) : pstate key val :=
+  {| p_symbolic := sym; p_mapping := []; p_storages := []; p_path := [] |}.
+
+Lemma p_start_inv : forall key val sym, pinv key val (p_start key val sym).
+Proof.
+  intros. constructor; cbn.
+  - constructor; cbn; [exact Logic.I | intros c a [] | intros n b k v []].
+  - intros n b k v [].
+  - intros _ c k [].
+Qed.
+
+(* every run from an empty account: for all-zero initial arrays, and -- when the account's
+   storage is symbolic -- for ANY initial arrays, the final path has a model extending them *)
+Lemma path_run_has_model :
+  forall (key val : Type) (kden : env -> key -> Z) (evalv : env -> val -> Z) (orc : key -> key -> tri)
+         (kval : key -> bool) (emits : bool -> bool -> bool),
+    (forall kv, emits true kv = false) ->
+    forall (decode : loc -> res (chunkid * key)) (e : env) (sym : bool) (ops : list (op val))
+           (init : chunkid -> Z -> Z),
+      (sym = false -> forall c i, init c i = 0) ->
+      exists I : aref -> Z -> Z,
+        (forall c i, I (AEmpty c) i = init c i) /\
+        (forall ax, In ax (p_path key val (snd (prun key val orc kval emits decode (p_start key val sym) ops))) ->
+           holds key val kden evalv I e ax).
+Proof.
+  intros key val kden evalv orc kval emits Hem decode e sym ops init H0.
+  pose proof (prun_inv key val orc kval emits Hem decode ops _ (p_start_inv key val sym)) as Hi.
+  exists (Ival key val kden evalv e init (p_storages key val (snd (prun key val orc kval emits decode (p_start key val sym) ops)))).
+  apply path_model; [exact Hi|].
+  intros c k Hin. destruct sym.
+  - exfalso. refine (inv_sym _ _ _ Hi _ c k Hin).
+    rewrite (prun_symbolic key val orc kval emits decode). reflexivity.
+  - apply H0. reflexivity.
+Qed.
+
+(* ---- the statements of Props/C08.v about the path side, for the guards of either layout *)
+Definition code_guard (emits : bool -> bool -> bool) : Prop :=
+  emits = sol_load_emits_empty \/ emits = gen_load_emits_empty.
+
+Lemma code_guard_ok : forall emits, code_guard emits ->
+  (forall kv, emits false kv = true) /\ (forall kv, emits true kv = false).
+Proof.
+  intros emits [->| ->]; split.
+  - exact sol_emits_complete. - exact sol_emits_only_nonsymbolic.
+  - exact gen_emits_complete. - exact gen_emits_only_nonsymbolic.
+Qed.
+
+Lemma path_load_code :
+  forall (key val : Type) (kden : env -> key -> Z) (evalv : env -> val -> Z) (orc : key -> key -> tri)
+         (kval : key -> bool) (emits : bool -> bool -> bool) (I : aref -> Z -> Z) (e : env),
+    emits = sol_load_emits_empty \/ emits = gen_load_emits_empty ->
+    forall (s : pstate key val) (c : chunkid) (k : key), pwf key val s ->
+      (forall ax, In ax (p_path key val (snd (pload key val orc kval emits s c k))) -> holds key val kden evalv I e ax) ->
+      evalp key val kden evalv I e (fst (pload key val orc kval emits s c k)) =
+      evalr key val kden evalv (fun c i => I (AEmpty c) i) e (p_symbolic key val s) (load key val orc (abs key val s) c k).
+Proof.
+  intros key val kden evalv orc kval emits I e Hg s c k W Hp.
+  exact (path_load_sound key val kden evalv orc kval emits I e (proj1 (code_guard_ok emits Hg)) s c k W Hp).
+Qed.
+
+Lemma path_seq_code :
+  forall (key val : Type) (kden : env -> key -> Z) (evalv : env -> val -> Z) (orc : key -> key -> tri)
+         (kval : key -> bool) (emits : bool -> bool -> bool) (adm : env -> Prop),
+    emits = sol_load_emits_empty \/ emits = gen_load_emits_empty ->
+    (forall a b, orc a b = MustEq -> forall e, adm e -> kden e a = kden e b) ->
+    (forall a b, orc a b = MustNeq -> forall e, adm e -> kden e a <> kden e b) ->
+    forall (H : Z -> Z -> Z) (decode : loc -> res (chunkid * key)) (e : env) (fam : list loc) (ops : list (op val)),
+      adm e -> faithful_on key kden H decode e fam ->
+      (forall o, In o ops -> In (op_loc val o) fam) ->
+      forall I : aref -> Z -> Z,
+        (forall ax, In ax (p_path key val (snd (prun key val orc kval emits decode (p_empty key val) ops))) ->
+           holds key val kden evalv I e ax) ->
+        map (evalp key val kden evalv I e) (fst (prun key val orc kval emits decode (p_empty key val) ops)) =
+        ref_run H e val evalv fempty ops.
+Proof.
+  intros key val kden evalv orc kval emits adm Hg Oe On.
+  exact (path_seq_from_empty key val kden evalv orc kval emits adm Oe On (proj1 (code_guard_ok emits Hg))).
+Qed.
+
+Lemma path_model_code :
+  forall (key val : Type) (kden : env -> key -> Z) (evalv : env -> val -> Z) (orc : key -> key -> tri)
+         (kval : key -> bool) (emits : bool -> bool -> bool),
+    emits = sol_load_emits_empty \/ emits = gen_load_emits_empty ->
+    forall (decode : loc -> res (chunkid * key)) (e : env) (sym : bool) (ops : list (op val))
+           (init : chunkid -> Z -> Z),
+      (sym = false -> forall c i, init c i = 0) ->
+      exists I : aref -> Z -> Z,
+        (forall c i, I (AEmpty c) i = init c i) /\
+        (forall ax, In ax (p_path key val (snd (prun key val orc kval emits decode (p_start key val sym) ops))) ->
+           holds key val kden evalv I e ax).
+Proof.
+  intros key val kden evalv orc kval emits Hg.
+  exact (path_run_has_model key val kden evalv orc kval emits (proj2 (code_guard_ok emits Hg))).
+Qed.
+
 (* ================================================================== concrete instances (real Keccak) *)
 (* stored values are plain numbers; keys denote concat(keys) under the real hash *)
 Definition evalZ (e : env) (v : Z) : Z := v.
@@ -495,6 +1052,29 @@ Proof.
     repeat (destruct Ho as [<-|Ho]; [cbn [op_loc In]; tauto|]). destruct Ho.
 Qed.
 
+(* the same program at the path level, through the real solidity decoder and the code's guard:
+   whatever interpretation of the array terms satisfies the path the run leaves, the returned
+   terms evaluate to the EVM's answers *)
+Definition ops_ex : list (op Z) :=
+  [OStore (Add [K h2; V 1]) 7; OStore (K 0) 8; OLoad (Add [V 1; Sha256 (K 2)]);
+   OStore (Add [Sha512 (V 0) (K 1); K 1]) 9; OLoad (K 0); OLoad (Add [K h2; V 1]); OLoad (Add [Sha512 (V 0) (K 1); K 1])].
+Lemma ops_ex_in_fam : forall o, In o ops_ex -> In (op_loc Z o) fam_ex.
+Proof.
+  intros o Ho. unfold ops_ex in Ho. cbn [In] in Ho. unfold fam_ex.
+  repeat (destruct Ho as [<-|Ho]; [cbn [op_loc In]; tauto|]). destruct Ho.
+Qed.
+Lemma path_seq_example : forall I : aref -> Z -> Z,
+  (forall ax, In ax (p_path (list kt) Z (snd (sol_prun Z orc_ex reg_empty (p_empty (list kt) Z) ops_ex))) ->
+     holds (list kt) Z sol_kden evalZ I env1 ax) ->
+  map (evalp (list kt) Z sol_kden evalZ I env1) (fst (sol_prun Z orc_ex reg_empty (p_empty (list kt) Z) ops_ex)) = [7; 8; 7; 9].
+Proof.
+  intros I Hp. unfold sol_prun in *.
+  rewrite (path_seq_code (list kt) Z sol_kden evalZ orc_ex sol_key_is_value sol_load_emits_empty adm_ex
+             (or_introl eq_refl) orc_ex_eq orc_ex_neq Hkeccak (sol_decode reg_empty) env1 fam_ex ops_ex
+             eq_refl fam_ex_faithful ops_ex_in_fam I Hp).
+  vm_compute. reflexivity.
+Qed.
+
 (* ================================================================== narrow constant keys *)
 (* mapping(bytes => uint) m at slot 5: m[hex"0000"] computed concretely is the constant
    keccak(0x0000 . 5); its registered term f_sha3_272(const) is not decoded (no Concat left),
@@ -522,3 +1102,18 @@ Lemma generic_hash_key_witness :
   decode_gen precomputed reg_empty env0 FUEL (Sha512 (Sha256 (K 2)) (K 0)) = Ok (1026, 2 * 2 ^ 770) /\
   decode_gen precomputed reg_empty env0 FUEL (Sha256 (Sha512 (K 2) (K 0))) = Ok (1026, 2 * 2 ^ 770).
 Proof. split; [vm_compute; discriminate|]. split; vm_compute; reflexivity. Qed.
+
+(* ================================================================== the undecided store *)
+(* m[v0] = 7 (m at slot 1), then a load of m[5], the solver not deciding v0 = 5: select stops
+   at the store and the load returns Select(<array variable 1>, key 5); its value for
+   v0 <> 5 comes from the two axioms the run left in the path *)
+Definition orc_unknown (a b : list kt) : tri := Unknown.
+Definition key_m (t : loc) : list kt := [KW [t]; KW [K 0]].
+Lemma undecided_example :
+  sol_prun Z orc_unknown reg_empty (p_empty (list kt) Z)
+    [OStore (Sha512 (V 0) (K 1)) 7; OLoad (Sha512 (K 5) (K 1))] =
+  ([PSelect (AVar 1) (key_m (K 5))],
+   {| p_symbolic := false; p_mapping := [((1, 2, 512), PArr (AVar 1))];
+      p_storages := [(1%nat, (AEmpty (1, 2, 512), key_m (V 0), 7))];
+      p_path := [AxEmpty (1, 2, 512) (key_m (K 5)); AxDef 1 (AEmpty (1, 2, 512)) (key_m (V 0)) 7] |}).
+Proof. vm_compute. reflexivity. Qed.
